@@ -263,6 +263,17 @@ def faults_decide(ctx, cases, meta, scns, index, rec_text, mc):
             raise Infra('FaultsTrace: no verdict (%s)\n%s' % (r.error, r.out[-3000:]))
         bad += [(ids[k * chunk + x[0] - 1], x[1], x[2]) for x in b]
         diverged += [ids[k * chunk + x - 1] for x in d]
+    if ctx.thorough():
+        # binding demonstration: one observed field changed => the trace must be rejected
+        demo = [json.loads(json.dumps(o)) for o in obs if not o['plan'] and o['scn'] == index['rotation']][:1]
+        if demo:
+            demo[0]['steps'][2]['others'] = True
+            r = ctx.tlc('MCFaultsTrace', cfg_text=tcfg, files={'c05rec.ndjson': rec_text, 'c05obs.ndjson': ndjson_text(demo), 'MCFaultsTrace.tla': tmc},
+                        workers=1, label='FaultsTrace binding demo', count=False)
+            b = printed(r.out, 'C05BAD')
+            if not b:
+                raise Infra('FaultsTrace accepted a trace in which another counter changed')
+            ctx.cov['binding_demo'] = 'fault-free rotation trace with step 3 altered to "another counter changed" is rejected: %s' % [list(x) for x in b]
     okcases = set(ids) - {b[0] for b in bad} - set(diverged)
     ctx.cov['traces_validated_against_impl'] += len(okcases)
     ctx.cov['divergences'] += len(diverged)
